@@ -204,3 +204,52 @@ func ZZ_C23_fallback() {
 		zzvt.Assert(uint32(keys[i][0]) == 50+idx, "fallback-key-selected-by-entropy")
 	}
 }
+
+// ZZ_C23_sealer_choice: the choice of the next slot-sealer sequence (6.24) for every epoch
+// step (same epoch, next epoch, two epochs later), every slot phase m of the prior slot in
+// 0..E-1 and an accumulator that is full or one short: the outside-in ordering of the
+// accumulator iff e' = e + 1, m >= Y and the accumulator is full; the prior sequence iff
+// e' = e; the fallback key sequence otherwise.
+//zz:workers=8
+func ZZ_C23_sealer_choice() {
+	zzvt.ConcreteHashes()
+	cs := zzFresh()
+	E := types.EpochLength
+	full := zzvt.Bool("accumulatorFull")
+	n := E
+	if !full {
+		n = E - 1
+	}
+	acc := make(types.TicketsAccumulator, n)
+	for i := range acc {
+		acc[i] = zzTicket(byte(3 * (i + 1)))
+	}
+	cs.GetPriorStates().SetGammaA(acc)
+	prior := types.TicketsOrKeys{Keys: make([]types.BandersnatchPublic, E)}
+	prior.Keys[0][0] = 0x5a
+	cs.GetPriorStates().SetGammaS(prior)
+	kappa := make(types.ValidatorsData, types.ValidatorsCount)
+	for i := range kappa {
+		kappa[i].Bandersnatch[0] = byte(0x10 + i)
+	}
+	cs.GetPosteriorStates().SetKappa(kappa)
+	e := types.TimeSlot(7)
+	ePrime := e + types.TimeSlot(zzvt.Range("epochStep", 0, 2))
+	m := types.TimeSlot(zzvt.Range("priorSlotPhase", 0, E-1))
+	UpdateSlotKeySequence(e, ePrime, m)
+	got := cs.GetPosteriorStates().GetGammaS()
+	switch {
+	case ePrime == e+1 && int(m) >= types.SlotSubmissionEnd && full:
+		zzvt.Assert(len(got.Tickets) == E && len(got.Keys) == 0, "tickets-seal-the-next-epoch")
+		if len(got.Tickets) == E {
+			zzvt.Assert(got.Tickets[0].ID == acc[0].ID && got.Tickets[1].ID == acc[E-1].ID, "outside-in-order")
+		}
+	case ePrime == e:
+		zzvt.Assert(len(got.Keys) == E && len(got.Tickets) == 0 && got.Keys[0] == prior.Keys[0], "same-epoch-keeps-the-sequence")
+	default:
+		zzvt.Assert(len(got.Keys) == E && len(got.Tickets) == 0, "fallback-keys-otherwise")
+		if len(got.Keys) == E {
+			zzvt.Assert(got.Keys[0][0] >= 0x10 && got.Keys[0][0] < byte(0x10+types.ValidatorsCount), "fallback-keys-are-validator-keys")
+		}
+	}
+}
